@@ -625,6 +625,9 @@ class Wikicode(StringMixIn):
         :class:`.Heading` object will be included; otherwise, this is skipped.
         """
         title_matcher = self._build_matcher(matches, flags)
+        if levels is not None:
+            # Looked at once per heading: an iterator would be used up.
+            levels = tuple(levels)
         matcher = lambda heading: (
             title_matcher(heading.title) and (not levels or heading.level in levels)
         )
